@@ -27,6 +27,10 @@ SPEC = os.path.join(VERIF, "spec")
 HARNESS = os.path.join(VERIF, "harness")
 TLAJAR = "/opt/veriftools/tla/tla2tools.jar:/opt/veriftools/tla/CommunityModules-deps.jar"
 
+# Evidence and replay files describe /repo itself; runs against a scratch copy of the repository
+# (mutation experiments, VERIF_REPO=...) write theirs elsewhere so they never masquerade as evidence.
+OUTROOT = VERIF if os.path.realpath(REPO) == "/repo" else os.path.join("/tmp", "verif-scratch-out")
+
 GOENV = {"GOFLAGS": "-mod=mod", "GOPROXY": "off", "GOSUMDB": "off", "GOTOOLCHAIN": "local"}
 
 
@@ -298,7 +302,7 @@ class Ctx:
         return "violation"
 
     def save_replay(self, key, what, obj):
-        d = os.path.join(VERIF, "replays", self.pid)
+        d = os.path.join(OUTROOT, "replays", self.pid)
         os.makedirs(d, exist_ok=True)
         blob = json.dumps({"property": self.pid, "key": key, "what": what, "seed": self.seed,
                            "tier": self.tier, "replay": obj}, indent=1, sort_keys=True, default=str)
@@ -317,8 +321,8 @@ class Ctx:
         ev = {"property_id": self.pid, "tier": self.tier, "seed": self.seed, "level": self.level,
               "coverage": cov, "assumptions": self.assumptions,
               "wall_s": round(time.time() - self.t0, 2), "violations": len(self.violations)}
-        os.makedirs(os.path.join(VERIF, "evidence"), exist_ok=True)
-        p = os.path.join(VERIF, "evidence", "%s.json" % self.pid)
+        os.makedirs(os.path.join(OUTROOT, "evidence"), exist_ok=True)
+        p = os.path.join(OUTROOT, "evidence", "%s.json" % self.pid)
         with open(p + ".tmp", "w") as f:
             json.dump(ev, f, indent=1, sort_keys=True, default=str)
             f.write("\n")
